@@ -26,8 +26,10 @@ EXPLANATION = ('C15: space.element(callable) is executed with an uninterpreted c
 BOUNDS = {'quick': {'ndim': '1-2 (3 for Resampling with concrete grids)', 'nodes per axis': '2-4 (non-uniform, concrete '
                     'coordinates)', 'evaluation points': '1-2 symbolic points per call', 'dtypes': 'float64, complex128, '
                     'float32 claimed'}}
-OUTSIDE = ['rounding of evaluation points (e.g. casting coordinates to float32): the engine computes over the reals',
-           'string dtype for nearest interpolation', 'the zero-extension ramp just outside the hull']
+OUTSIDE = ['rounding of symbolic evaluation points (the engine computes over the reals; concrete float64 points next '
+           'to ties and nodes with float32 / complex64 values are covered)',
+           'string dtype for nearest interpolation', 'symbolic coordinate vectors (concrete non-uniform ones are used)',
+           'more than one cell outside the hull']
 ASSUMPTIONS = []
 SETTINGS = {'max_paths': 2000, 'tol': None, 'obligation_timeout_ms': 20000}
 CFG_TIMEOUT = {'quick': 240, 'thorough': 900}
